@@ -29,10 +29,20 @@ func (s ExploreUnion) Interests() []datamodel.PathSegment {
 		}
 	}
 	// Accumulate the whitelist of interesting path segments.
-	// TODO: Dedup?
+	// A segment named by several members is listed once (first occurrence wins):
+	// the traversal explores a child once per listed segment, and Explore already
+	// combines what all members have to say about that child.
 	v := []datamodel.PathSegment{}
+	seen := make(map[string]struct{})
 	for _, m := range s.Members {
-		v = append(v, m.Interests()...)
+		for _, ps := range m.Interests() {
+			k := ps.String()
+			if _, dup := seen[k]; dup {
+				continue
+			}
+			seen[k] = struct{}{}
+			v = append(v, ps)
+		}
 	}
 	return v
 }
